@@ -307,6 +307,64 @@ pub fn cfb_sites(img: &[u8], l: &Layout, caps: &Caps, ch: &mut Chooser) -> Vec<S
     v
 }
 
+/// Compound files whose allocation structures alias each other: every DIFAT entry (109 in the
+/// header plus `k` appended DIFAT sectors) names the same FAT sector, which inflates the FAT the
+/// reader builds without adding sectors to the file, and one chain is made cyclic.  A reader that
+/// bounds chains by the size of the FAT then copies the same sectors (109 + 127k) * 128 times.
+pub fn cfb_bombs(img: &[u8], l: &Layout, k: u32) -> Vec<Vec<StoredFault>> {
+    let mut out = Vec::new();
+    let fat0 = match l.fat_sectors.first() {
+        Some(s) => *s,
+        None => return out,
+    };
+    let ssz = l.ssz;
+    let aligned = (l.n_sectors + 1) * ssz;
+    let mut base: Vec<StoredFault> = Vec::new();
+    if aligned > img.len() {
+        base.push(raw(Edit::Insert { off: img.len(), bytes: vec![0; aligned - img.len()] }, "cfb:difat-alias pad to a sector boundary".into()));
+    }
+    let mut pattern = Vec::with_capacity(ssz);
+    for _ in 0..ssz / 4 {
+        pattern.extend_from_slice(&fat0.to_le_bytes());
+    }
+    base.push(raw(
+        Edit::Repeat { off: aligned, pattern, count: k, start: l.n_sectors as i64 + 1, step: 1, le: vec![((ssz - 4) as u16, 4)] },
+        format!("cfb:difat-alias {} appended DIFAT sectors whose entries all name FAT sector {}", k, fat0),
+    ));
+    base.push(raw(set_u32(68, l.n_sectors as u32), "cfb:difat-alias first DIFAT sector -> the appended ones".into()));
+    base.push(raw(set_u32(72, k), "cfb:difat-alias number of DIFAT sectors".into()));
+    let mut hdr = Vec::new();
+    for _ in 0..109 {
+        hdr.extend_from_slice(&fat0.to_le_bytes());
+    }
+    base.push(raw(Edit::Set { off: 76, bytes: hdr }, format!("cfb:difat-alias all 109 header DIFAT entries -> FAT sector {}", fat0)));
+    // which chain is made cyclic
+    let mut targets: Vec<(u32, String)> = Vec::new();
+    if let Some(s) = l.dir_chain.first() {
+        targets.push((*s, "directory chain".into()));
+    }
+    if let Some(s) = l.ministream_chain.first() {
+        targets.push((*s, "mini stream chain".into()));
+    }
+    if let Some(s) = l.minifat_chain.first() {
+        targets.push((*s, "mini FAT chain".into()));
+    }
+    if let Some(e) = l.dir.iter().filter(|e| e.typ == 2 && e.size >= 4096).max_by_key(|e| e.size) {
+        targets.push((e.start, format!("chain of stream {}", e.name)));
+    }
+    for (s, what) in targets {
+        if let Some(off) = l.fat_entry_off(s as usize) {
+            if off + 4 <= img.len() {
+                let mut g = base.clone();
+                g.push(raw(set_u32(off, s), format!("cfb:difat-alias {} made a 1-cycle at sector {}", what, s)));
+                out.push(g);
+            }
+        }
+    }
+    out.push(base);
+    out
+}
+
 /// Targeted raw sites of a zip container: end-of-central-directory, central directory and
 /// local header fields.
 pub fn zip_raw_sites(img: &[u8], caps: &Caps) -> Vec<StoredFault> {
@@ -616,8 +674,10 @@ pub fn xml_string_attr_faults(part: &str, data: &[u8], caps: &Caps, ch: &mut Cho
                         b"&bogus;".to_vec(),
                         b"18446744073709551616".to_vec(),
                         b"-1".to_vec(),
+                        "[".repeat(300).into_bytes(),
+                        "\\".repeat(301).into_bytes(),
                     ];
-                    let take = if caps.token_values >= 12 { pool.len() } else { 5 };
+                    let take = if caps.token_values >= 12 { pool.len() } else { 6 };
                     let start = (hbytes(key.as_bytes()) % pool.len() as u64) as usize;
                     for k in 0..take {
                         let val = &pool[(start + k * 5) % pool.len()];
@@ -1036,6 +1096,179 @@ pub fn rgce_truncations(label: &str, s: &[u8], biff: bool, mk: &dyn Fn(Edit, Str
     v
 }
 
+/// Complexity bombs inside record streams (all "light": short call list, budgets proportional
+/// to the generated bytes).  Each returns groups of edits in application order.
+///  * token floods: a formula whose token stream is one operand followed by thousands of
+///    copies of a unary / attribute token (each of which edits the text built so far);
+///  * unaligned operand extremes: 0xFFFF written at every byte offset of the first 40 bytes of
+///    a formula's token stream (tokens are not aligned; rows and columns sit at odd offsets);
+///  * record floods: the first record of each type followed by thousands of copies of itself;
+///  * a string of `[` as number format (bracket counter), an SST followed by a flood of
+///    empty CONTINUE records, sheets that all alias one substream.
+pub fn record_bombs(label: &str, s: &[u8], biff: bool, thorough: bool, mk: &dyn Fn(Edit, String) -> StoredFault) -> Vec<Vec<StoredFault>> {
+    let mut out: Vec<Vec<StoredFault>> = Vec::new();
+    let recs = if biff { biff_records(s) } else { xlsb_records(s) };
+    let pfx = if biff { "biff" } else { "xlsb" };
+    let whole = |r: &Rec| r.off + r.hdr + r.len <= s.len();
+    let header = |typ: u32, len: usize| -> Vec<u8> {
+        if biff {
+            let mut h = (typ as u16).to_le_bytes().to_vec();
+            h.extend_from_slice(&(len as u16).to_le_bytes());
+            h
+        } else {
+            let mut h: Vec<u8> = if typ < 0x80 { vec![typ as u8] } else { vec![(typ & 0x7F) as u8 | 0x80, (typ >> 7) as u8] };
+            h.extend_from_slice(&varint(len, 4));
+            h
+        }
+    };
+    // ---- formula records: token floods and unaligned operand extremes ----
+    let formula_rec = recs.iter().find(|r| whole(r) && ((biff && r.typ == 0x0006 && r.len >= 22) || (!biff && r.typ == 0x0009 && r.len >= 22)));
+    if let Some(r) = formula_rec {
+        let body = &s[r.off + r.hdr..r.off + r.hdr + r.len];
+        let fixed = if biff { 20 } else { 18 };
+        let total_max = if biff { 60_000usize } else if thorough { 3_000_000 } else { 1_500_000 };
+        let operand: &[u8] = &[0x1E, 0x01, 0x00]; // PtgInt 1
+        let pats: [(&str, &[u8]); 6] = [("PtgUplus", &[0x12]), ("PtgUminus", &[0x13]), ("PtgParen", &[0x15]), ("PtgPercent", &[0x14]), ("PtgAttrSpace x255", &[0x19, 0x40, 0x00, 0xFF]), ("PtgAttrSum", &[0x19, 0x10, 0x00, 0x00])];
+        for (name, pat) in pats.iter() {
+            let n = (total_max - operand.len()) / pat.len();
+            let cce = operand.len() + n * pat.len();
+            let mut head = body[..fixed].to_vec();
+            if biff {
+                head.extend_from_slice(&(cce as u16).to_le_bytes());
+            } else {
+                head.extend_from_slice(&(cce as u32).to_le_bytes());
+            }
+            head.extend_from_slice(operand);
+            let tail: Vec<u8> = if biff { vec![] } else { 0u32.to_le_bytes().to_vec() };
+            let data_len = head.len() + n * pat.len() + tail.len();
+            let mut new_head = header(r.typ, data_len);
+            new_head.extend_from_slice(&head);
+            let at = r.off;
+            out.push(vec![
+                mk(Edit::Delete { off: at, len: r.hdr + r.len }, format!("{}:token-flood (removal of the original formula record of {})", pfx, label)),
+                mk(Edit::Insert { off: at, bytes: new_head.clone() }, format!("{}:token-flood (record head)", pfx)),
+                mk(Edit::Repeat { off: at + new_head.len(), pattern: pat.to_vec(), count: n as u32, start: 0, step: 0, le: vec![] }, format!("{}:token-flood {} formula at {}: one operand followed by {} x {}", pfx, label, r.off, n, name)),
+                mk(Edit::Insert { off: at + new_head.len() + n * pat.len(), bytes: tail }, format!("{}:token-flood (record tail)", pfx)),
+            ]);
+        }
+        // every token kind with all-ones / all-zero operands: [PtgInt 1, PtgInt 2, ptg, 16 x fill]
+        for ptg in 0x01u8..=0x7D {
+            for fill in [0xFFu8, 0x00] {
+                let mut rg = vec![0x1E, 0x01, 0x00, 0x1E, 0x02, 0x00, ptg];
+                rg.extend(std::iter::repeat(fill).take(16));
+                let mut d = body[..fixed].to_vec();
+                if biff {
+                    d.extend_from_slice(&(rg.len() as u16).to_le_bytes());
+                } else {
+                    d.extend_from_slice(&(rg.len() as u32).to_le_bytes());
+                }
+                d.extend_from_slice(&rg);
+                if !biff {
+                    d.extend_from_slice(&0u32.to_le_bytes());
+                }
+                let mut rec = header(r.typ, d.len());
+                rec.extend_from_slice(&d);
+                out.push(vec![
+                    mk(Edit::Delete { off: r.off, len: r.hdr + r.len }, format!("{}:token-extreme (removal of the original formula record of {})", pfx, label)),
+                    mk(Edit::Insert { off: r.off, bytes: rec }, format!("{}:token-extreme {} formula at {}: token {:#04x} with operands of 16 x {:#04x}", pfx, label, r.off, ptg, fill)),
+                ]);
+            }
+        }
+        // unaligned 0xFFFF over the token stream
+        let rg = r.off + r.hdr + fixed + if biff { 2 } else { 4 };
+        let end = (r.off + r.hdr + r.len).min(rg + 40);
+        for o in rg..end.saturating_sub(1) {
+            out.push(vec![mk(Edit::Set { off: o, bytes: vec![0xFF, 0xFF] }, format!("{}:operand {} formula at {}: bytes +{}..+{} of the token stream -> 0xFFFF", pfx, label, r.off, o - rg, o - rg + 2))]);
+        }
+    }
+    // ---- record floods ----
+    let mut seen: Vec<u32> = Vec::new();
+    let per = if thorough { 400_000usize } else { 150_000 };
+    for r in recs.iter() {
+        if !whole(r) || seen.contains(&r.typ) {
+            continue;
+        }
+        seen.push(r.typ);
+        if seen.len() > if thorough { 48 } else { 10 } {
+            break;
+        }
+        let size = r.hdr + r.len;
+        let n = (per / size.max(1)).clamp(200, 40_000);
+        out.push(vec![mk(
+            Edit::Repeat { off: r.off + size, pattern: s[r.off..r.off + size].to_vec(), count: n as u32, start: 0, step: 0, le: vec![] },
+            format!("{}:record-flood {} record at {} type {:#06x} followed by {} copies of itself", pfx, label, r.off, r.typ, n),
+        )]);
+    }
+    if biff {
+        // number format made of opening brackets
+        if let Some(r) = recs.iter().find(|r| whole(r) && r.typ == 0x041E && r.len >= 5) {
+            for n in [300usize, 5000] {
+                let mut d = s[r.off + 4..r.off + 6].to_vec();
+                d.extend_from_slice(&(n as u16).to_le_bytes());
+                d.push(0);
+                d.extend(std::iter::repeat(b'[').take(n));
+                let mut rec = header(0x041E, d.len());
+                rec.extend_from_slice(&d);
+                out.push(vec![
+                    mk(Edit::Delete { off: r.off, len: r.hdr + r.len }, "biff:format-bomb (removal of the original FORMAT record)".into()),
+                    mk(Edit::Insert { off: r.off, bytes: rec }, format!("biff:format-bomb {} FORMAT record at {}: format string of {} opening brackets", label, r.off, n)),
+                ]);
+            }
+        }
+        // SST whose only string claims 2 GiB of ExtRst, followed by a flood of empty CONTINUE records
+        if let Some(r) = recs.iter().find(|r| whole(r) && r.typ == 0x00FC) {
+            let mut d = vec![1u8, 0, 0, 0, 1, 0, 0, 0];
+            d.extend_from_slice(&[0, 0, 0x04]); // cch 0, fExtSt
+            d.extend_from_slice(&0x7FFF_FFFFu32.to_le_bytes());
+            let mut rec = header(0x00FC, d.len());
+            rec.extend_from_slice(&d);
+            let n = if thorough { 800_000u32 } else { 400_000 };
+            out.push(vec![
+                mk(Edit::Delete { off: r.off, len: r.hdr + r.len }, "biff:continue-flood (removal of the original SST)".into()),
+                mk(Edit::Insert { off: r.off, bytes: rec.clone() }, "biff:continue-flood (SST with one string claiming 2 GiB of ExtRst)".into()),
+                mk(Edit::Repeat { off: r.off + rec.len(), pattern: vec![0x3C, 0, 0, 0], count: n, start: 0, step: 0, le: vec![] }, format!("biff:continue-flood {} SST followed by {} empty CONTINUE records", label, n)),
+            ]);
+        }
+        // many sheets that all alias one substream which itself holds many cells
+        if let (Some(bs), Some(dim)) = (recs.iter().find(|r| whole(r) && r.typ == 0x0085), recs.iter().find(|r| whole(r) && r.typ == 0x0200)) {
+            let n = if thorough { 6000u32 } else { 3000 };
+            let mut num = vec![0x03u8, 0x02, 14, 0];
+            num.extend_from_slice(&[0u8; 6]);
+            num.extend_from_slice(&1.25f64.to_le_bytes());
+            let bsz = bs.hdr + bs.len;
+            // the BoundSheet copies are inserted first (they shift the substream): lbPlyPos of every
+            // BoundSheet must point at the shifted substream, so patch the position field in the pattern
+            let sub_bof = recs.iter().filter(|r| r.typ == 0x0809).nth(1).map(|r| r.off);
+            if let Some(sub) = sub_bof {
+                let shifted = sub + bsz * n as usize;
+                let mut pat = s[bs.off..bs.off + bsz].to_vec();
+                pat[4..8].copy_from_slice(&(shifted as u32).to_le_bytes());
+                let dim_at = dim.off + dim.hdr + dim.len + bsz * n as usize;
+                out.push(vec![
+                    mk(Edit::Set { off: bs.off + 4, bytes: (shifted as u32).to_le_bytes().to_vec() }, "biff:sheet-alias-flood (first BoundSheet repointed)".into()),
+                    mk(Edit::Repeat { off: bs.off + bsz, pattern: pat, count: n, start: 0, step: 0, le: vec![] }, format!("biff:sheet-alias-flood {} {} BoundSheet records naming the same substream", label, n)),
+                    mk(Edit::Repeat { off: dim_at, pattern: num, count: n, start: 0, step: 1, le: vec![(4, 2)] }, format!("biff:sheet-alias-flood … which holds {} generated NUMBER records", n)),
+                ]);
+            }
+        }
+    } else if let Some(r) = recs.iter().find(|r| whole(r) && r.typ == 0x002C && r.len >= 6) {
+        for n in [300usize, 5000] {
+            let mut d = s[r.off + r.hdr..r.off + r.hdr + 2].to_vec();
+            d.extend_from_slice(&(n as u32).to_le_bytes());
+            for _ in 0..n {
+                d.extend_from_slice(&[b'[', 0]);
+            }
+            let mut rec = header(0x002C, d.len());
+            rec.extend_from_slice(&d);
+            out.push(vec![
+                mk(Edit::Delete { off: r.off, len: r.hdr + r.len }, "xlsb:format-bomb (removal of the original BrtFmt)".into()),
+                mk(Edit::Insert { off: r.off, bytes: rec }, format!("xlsb:format-bomb {} BrtFmt at {}: format string of {} opening brackets", label, r.off, n)),
+            ]);
+        }
+    }
+    out
+}
+
 /// A formula whose token stream nests as deeply as its 16-bit lengths allow (PtgMemFunc inside
 /// PtgMemFunc …): a parser that recurses per level needs stack in proportion to the input.
 pub fn xlsb_formula_nesting(part: &str, s: &[u8]) -> Vec<StoredFault> {
@@ -1373,9 +1606,53 @@ pub fn sites(fx: &Fixture, parts: &mut Parts, tier: Tier) -> Vec<SiteGroup> {
         Tier::Quick => 100_000,
         Tier::Thorough => 250_000,
     };
-    if tier == Tier::Thorough || fx.name.starts_with("any_sheets.") {
-        for g in amplify_sites(fx, parts, amp_n) {
-            all.push(SiteGroup { inner: None, faults: g, light: true });
+    if tier == Tier::Thorough || fx.name.starts_with("any_sheets.") || fx.name.starts_with("issues.") || fx.name.starts_with("date.") || fx.name.starts_with("vba.") {
+        if tier == Tier::Thorough || fx.name.starts_with("any_sheets.") {
+            for g in amplify_sites(fx, parts, amp_n) {
+                all.push(SiteGroup { inner: None, faults: g, light: true });
+            }
+        }
+        let thorough = tier == Tier::Thorough;
+        if let Some(l) = parts.cfb.clone() {
+            for g in cfb_bombs(img, &l, if thorough { 4000 } else { 600 }) {
+                all.push(SiteGroup { inner: None, faults: g, light: true });
+            }
+        }
+        if let Some(data) = parts.part("xl/vbaProject.bin") {
+            if let Some(l) = cfbfmt::parse(&data) {
+                for g in cfb_bombs(&data, &l, if thorough { 4000 } else { 600 }) {
+                    all.push(SiteGroup { inner: Some("xl/vbaProject.bin".into()), faults: g, light: true });
+                }
+            }
+        }
+        match fx.format {
+            Format::Xlsb => {
+                let names: Vec<String> = parts.zip.as_ref().map(|z| z.iter().map(|e| e.name.clone()).collect()).unwrap_or_default();
+                for n in names.iter().filter(|n| is_record_part(n)) {
+                    if let Some(data) = parts.part(n) {
+                        let nn = n.clone();
+                        let mk = move |e: Edit, why: String| StoredFault { layer: Layer::ZipPart { part: nn.clone(), pack: Pack::Deflated }, edit: Some(e), why };
+                        for g in record_bombs(n, &data, false, thorough, &mk) {
+                            all.push(SiteGroup { inner: None, faults: g, light: true });
+                        }
+                    }
+                }
+            }
+            Format::Xls => {
+                if let Some(l) = parts.cfb.clone() {
+                    let streams = cfbfmt::all_streams(img, &l);
+                    for (e, st) in l.dir.iter().zip(&streams) {
+                        if e.typ == 2 && (e.name == "Workbook" || e.name == "Book") && !st.is_empty() {
+                            let nm = e.name.clone();
+                            let mk = move |ed: Edit, why: String| StoredFault { layer: Layer::CfbStream { stream: nm.clone() }, edit: Some(ed), why };
+                            for g in record_bombs(&e.name, st, true, thorough, &mk) {
+                                all.push(SiteGroup { inner: None, faults: g, light: true });
+                            }
+                        }
+                    }
+                }
+            }
+            _ => {}
         }
     }
     // ---- layer 1: BIFF workbook stream of an xls file ----
